@@ -28,10 +28,24 @@ func runC08(a *A) {
 		a.ruleFireGuard(a.Named("window", "SlidingWindow"), a.Method("window", "SlidingWindow", "checkAndTriggerWindows"))
 	})
 	a.Rule("ordtab/take-keep", 2, func() {
-		a.ruleTakeKeep(a.Named("window", "SlidingWindow"), a.Method("window", "SlidingWindow", "extractWindowDataLocked"), tkSpec{slide: true})
+		W := a.Named("window", "SlidingWindow")
+		late := a.MethodOpt("window", "SlidingWindow", "triggerLateUpdateLocked")
+		for _, fn := range a.methodsOf(W) {
+			// (the late re-delivery copies rows of a fired window out of the buffer without cutting it:
+			// it has no keep side; its rows are judged by shape/late-update-identity)
+			if fn != late && a.hasTakeLoop(W, fn) && len(storesToField(fn, a.FieldOf(W, "data"))) > 0 {
+				a.ruleTakeKeep(W, fn, tkSpec{slide: true})
+			}
+		}
 	})
 	a.Rule("shape/slot-stamp", 1, func() {
-		a.ruleSlotStamp(a.Named("window", "SlidingWindow"), a.Method("window", "SlidingWindow", "extractWindowDataLocked"))
+		W := a.Named("window", "SlidingWindow")
+		late := a.MethodOpt("window", "SlidingWindow", "triggerLateUpdateLocked")
+		for _, fn := range a.methodsOf(W) {
+			if fn != late && a.hasTakeLoop(W, fn) && len(storesToField(fn, a.FieldOf(W, "data"))) > 0 {
+				a.ruleSlotStamp(W, fn)
+			}
+		}
 	})
 	a.Rule("whomay/data-writers", 7, func() {
 		W := a.Named("window", "SlidingWindow")
